@@ -20,6 +20,7 @@ RULE = ("Engine 'pca': Hypothesis draws an image stack (N in k+1..40 images of s
         "Engine 'loader': loader.classify on tomograms with planted, interleaved particle classes: exactly one new "
         "integer column, row i <-> molecule i, nothing else changed. Non-trivial = > 1 chunk along the sample axis, "
         "> 500 features, or N > k + 10.")
+RULE += (" " + 'Also: int16 stacks, boolean masks, row subsets in any order with repeats.')
 TOLERANCES = {"singular values": "rtol 1e-3 (float32 data)", "components": "|cos| >= 1 - 1e-3 (gap >= 1%)",
               "projections": "2e-3 * sigma_1", "orthonormality": "1e-4"}
 ASSUMPTIONS = ["k-means separation is only asserted for planted clusters whose centres are >= 12 noise sigmas apart"]
